@@ -62,26 +62,31 @@ _K = [_iroot(3, p << 96) & 0xFFFFFFFF for p in _primes(64)]
 _H0 = [_iroot(2, p << 64) & 0xFFFFFFFF for p in _primes(8)]
 
 
+def py_compress(H, block):
+    """FIPS 180-4 6.2.2 for one 64-byte block (pure Python; oracle of the white-box op `xform`)"""
+    M = 0xFFFFFFFF
+    rotr = lambda x, n: ((x >> n) | (x << (32 - n))) & M
+    W = [int.from_bytes(block[4 * i:4 * i + 4], "big") for i in range(16)]
+    for t in range(16, 64):
+        s0 = rotr(W[t - 15], 7) ^ rotr(W[t - 15], 18) ^ (W[t - 15] >> 3)
+        s1 = rotr(W[t - 2], 17) ^ rotr(W[t - 2], 19) ^ (W[t - 2] >> 10)
+        W.append((s1 + W[t - 7] + s0 + W[t - 16]) & M)
+    a, b, c, d, e, f, g, h = H
+    for t in range(64):
+        t1 = (h + (rotr(e, 6) ^ rotr(e, 11) ^ rotr(e, 25)) + ((e & f) ^ (~e & M & g)) + _K[t] + W[t]) & M
+        t2 = ((rotr(a, 2) ^ rotr(a, 13) ^ rotr(a, 22)) + ((a & b) ^ (a & c) ^ (b & c))) & M
+        a, b, c, d, e, f, g, h = (t1 + t2) & M, a, b, c, (d + t1) & M, e, f, g
+    return [(x + y) & M for x, y in zip(H, (a, b, c, d, e, f, g, h))]
+
+
 def py_sha256(msg, preset=0):
     """FIPS 180-4 SHA-256 of `msg` as if `preset` bytes (a multiple of 64) had been absorbed before with
     the chaining value still H0 - i.e. exactly what the white-box op `setcount` sets up"""
-    M = 0xFFFFFFFF
-    rotr = lambda x, n: ((x >> n) | (x << (32 - n))) & M
     total = preset + len(msg)
     data = msg + b"\x80" + bytes((55 - len(msg)) % 64) + ((8 * total) % 2 ** 64).to_bytes(8, "big")
     H = list(_H0)
     for off in range(0, len(data), 64):
-        W = [int.from_bytes(data[off + 4 * i:off + 4 * i + 4], "big") for i in range(16)]
-        for t in range(16, 64):
-            s0 = rotr(W[t - 15], 7) ^ rotr(W[t - 15], 18) ^ (W[t - 15] >> 3)
-            s1 = rotr(W[t - 2], 17) ^ rotr(W[t - 2], 19) ^ (W[t - 2] >> 10)
-            W.append((s1 + W[t - 7] + s0 + W[t - 16]) & M)
-        a, b, c, d, e, f, g, h = H
-        for t in range(64):
-            t1 = (h + (rotr(e, 6) ^ rotr(e, 11) ^ rotr(e, 25)) + ((e & f) ^ (~e & M & g)) + _K[t] + W[t]) & M
-            t2 = ((rotr(a, 2) ^ rotr(a, 13) ^ rotr(a, 22)) + ((a & b) ^ (a & c) ^ (b & c))) & M
-            a, b, c, d, e, f, g, h = (t1 + t2) & M, a, b, c, (d + t1) & M, e, f, g
-        H = [(x + y) & M for x, y in zip(H, (a, b, c, d, e, f, g, h))]
+        H = py_compress(H, data[off:off + 64])
     return b"".join(x.to_bytes(4, "big") for x in H).hex()
 
 
@@ -93,6 +98,17 @@ def reference(hist):
     for line in hist:
         t = line.split()
         try:
+            if t[0] == "variant" and len(t) == 2:
+                out.append("ok" if t[1] in ("rolled", "u2") else "bad-op")
+                continue
+            if t[0] == "xform" and len(t) == 3:
+                st, blk = unhx(t[1]), unhx(t[2])
+                if len(st) != 32 or len(blk) != 64:
+                    out.append("bad-op")
+                else:
+                    H = py_compress([int.from_bytes(st[4 * i:4 * i + 4], "big") for i in range(8)], blk)
+                    out.append(b"".join(x.to_bytes(4, "big") for x in H).hex())
+                continue
             if t[0] == "setcount" and len(t) == 2:
                 n = int(t[1])
                 if n % 64 == 0 and n < 2 ** 64:
@@ -290,6 +306,34 @@ def count_histories(rng, n=40):
     return hs
 
 
+def xform_histories(rng, n, variant):
+    """white box: single `Transform` calls on arbitrary chaining values and blocks (not only the reachable ones),
+    real code vs the generated Transform of the configuration vs a pure-Python FIPS compression function"""
+    hs = []
+    pats = [bytes(32), bytes([0xFF]) * 32, bytes(range(32)), b"".join(x.to_bytes(4, "big") for x in _H0)]
+    for k in range(n):
+        h = [f"variant {variant}"]
+        for _ in range(8):
+            st = rng.choice(pats) if rng.random() < 0.3 else bytes(rng.getrandbits(8) for _ in range(32))
+            h.append(f"xform {hx(st)} {hx(rbytes(rng, 64))}")
+        if k % 8 == 0:
+            h += ["xform 00 " + "00" * 64, "xform " + "00" * 32 + " 00", "variant x"]
+        hs.append(h)
+    return hs
+
+
+def u2_histories(rng, quick):
+    """digest histories for the harness compiled with -D_SHA256_UNROLL2 (the model side is the same: both
+    configurations are proved equal, `transform_unroll2_eq`)"""
+    hs = [["variant u2"] + list(VECTORS)]
+    lens = BOUNDARY if quick else list(range(301))
+    hs += [["variant u2"] + two_way(rng, n) for n in lens]
+    hs += [["variant u2"] + three_way(rng) for _ in range(40 if quick else 4000)]
+    hs += [["variant u2"] + long_msg(rng) for _ in range(4 if quick else 100)]
+    hs += [["variant u2"] + hmac_hist(rng, [0, 1, 63, 64, 65, 131, rng.randrange(201), rng.randrange(201)]) for _ in range(4 if quick else 200)]
+    return hs
+
+
 def histories_for(ctx):
     rng = ctx.rng
     quick = ctx.tier == "quick"
@@ -391,6 +435,9 @@ def check(ctx):
     harness = C.build_harness(ctx, "sha", ["sha.cpp", C.REPO / "src/Crypto/Sha256.cpp", C.REPO / "src/Memory.cpp"])
     if harness is None or not C.driver_path(DRIVER).exists():
         return
+    # the second build configuration of the same sources
+    harness_u2 = C.build_harness(ctx, "sha_u2", ["sha.cpp", C.REPO / "src/Crypto/Sha256.cpp", C.REPO / "src/Memory.cpp"],
+                                 extra_flags=["-D_SHA256_UNROLL2"])
     try:
         hs = histories_for(ctx)
         if not proof_ok:
@@ -428,13 +475,35 @@ def check(ctx):
         cd = C.differential(ctx, harness, C.driver_path(DRIVER), ch, reference, C.default_eq, nontrivial=nontrivial)
         ctx.log(f"count-width stream (white box): {len(ch)} histories, {len(cd)} disagreement(s)")
         report(ctx, cd, harness, C.driver_path(DRIVER), "sha-count-width")
+        xh = xform_histories(ctx.rng, 60 if ctx.tier == "quick" else 3000, "rolled")
+        ops["xform"] = sum(1 for h in xh for l in h if l.startswith("xform"))
+        ops["variant"] = len(xh)
+        xd = C.differential(ctx, harness, C.driver_path(DRIVER), xh, reference, C.default_eq, nontrivial=nontrivial)
+        ctx.log(f"transform stream (white box): {len(xh)} histories, {len(xd)} disagreement(s)")
+        report(ctx, xd, harness, C.driver_path(DRIVER), "sha-transform")
+        nu2 = 0
+        if harness_u2 is not None:
+            uh = xform_histories(ctx.rng, 60 if ctx.tier == "quick" else 3000, "u2") + u2_histories(ctx.rng, ctx.tier == "quick")
+            nu2 = len(uh)
+            for h in uh:
+                for l in h:
+                    ops[l.split()[0]] = ops.get(l.split()[0], 0) + 1
+            ud = C.differential(ctx, harness_u2, C.driver_path(DRIVER), uh, reference, C.default_eq, nontrivial=nontrivial)
+            ctx.log(f"-D_SHA256_UNROLL2 build: {len(uh)} histories, {len(ud)} disagreement(s)")
+            report(ctx, ud, harness_u2, C.driver_path(DRIVER), "sha-unroll2")
+        ctx.cov["op_histogram"] = ops
+        ctx.cov["rule"] += (f"; + white-box stream 'sha-transform' ({len(xh)} histories of 8 single Transform calls on arbitrary chaining values/blocks: "
+                            f"real code vs generated Transform vs pure-Python FIPS compression); + stream 'sha-unroll2' ({nu2} histories run on a second harness "
+                            f"compiled from the same sources with -D_SHA256_UNROLL2: Transform calls against the generated UNROLL2 Transform, digest/hmac histories against model and hashlib)")
         ctx.cov["rule"] += (f"; + stream 'sha-null-args' ({len(nh)} histories: empty inputs passed as (nullptr, 0)); + white-box stream 'sha-count-width' "
                             f"({len(ch)} histories: count preset to multiples of 64 up to 2^64-64, real code vs model vs a pure-Python FIPS implementation with preset length, self-tested against hashlib)")
     finally:
-        try:
-            harness.unlink()
-        except OSError:
-            pass
+        for hh in (harness, harness_u2):
+            try:
+                if hh is not None:
+                    hh.unlink()
+            except OSError:
+                pass
 
 
 def minimise_args(d, harness, driver, budget=400):
